@@ -160,8 +160,7 @@ def judgeFinish (s : JudgeSt) : String :=
       let where_ := match firstInexact cfg fullAdmitted SSt.init h with
         | some o => s!"q={o.op.q} r={o.op.r} t={o.op.t}"
         | none => "?"
-      if f01a cfg h then s!"fail F01a refused-although-no-quota-of-the-chain-let-max-through(charged-full-only) {where_}"
-      else s!"fail - spurious-refusal {where_}"
+      s!"fail - refused-although-no-quota-of-the-chain-let-max-through {where_}"
 
 def main (args : List String) : IO Unit :=
   match args with
